@@ -1,21 +1,23 @@
 #!/usr/bin/env python3
 """Development aid: confirm a sub-agent's seed in a scratch worktree, run the listed checks against it, store it under /verif/seeded/.
-usage: seedstore.py <prop> <A|B> <check1,check2,...>"""
+usage: seedstore.py <prop> <A|B> <check1,check2,...> [<name under which it is stored>]     (SEEDBASE: where the seeds are, default /tmp/wt)"""
 import json, os, shutil, subprocess, sys
 prop, var, checks = sys.argv[1], sys.argv[2], sys.argv[3]
-src = f"/tmp/wt/{prop}/_seed/{var}"
+base = os.environ.get("SEEDBASE", "/tmp/wt")
+name = sys.argv[4] if len(sys.argv) > 4 else var
+src = f"{base}/{prop}/_seed/{var}"
 p = subprocess.run([sys.executable, "/verif/lib/seedtest.py", src, checks], stdout=subprocess.PIPE, stderr=subprocess.STDOUT, text=True)
 print(p.stdout[-1500:])
 if p.returncode not in (0,):
     print("seedtest failed", p.returncode); sys.exit(1)
 res = json.load(open(os.path.join(src, "result.json")))
-dst = f"/verif/seeded/{prop}-{var}"
+dst = f"/verif/seeded/{prop}-{name}"
 os.makedirs(dst, exist_ok=True)
 shutil.copy(os.path.join(src, "patch.diff"), dst)
 shutil.copy(os.path.join(src, "demo.rs"), dst)
 notes = open(os.path.join(src, "notes.md")).read() if os.path.exists(os.path.join(src, "notes.md")) else ""
 shutil.copy(os.path.join(src, "notes.md"), dst) if notes else None
-meta = {"property": prop, "variant": var, "breaks": prop, "needs_to_manifest": " ".join(notes.split())[:900],
+meta = {"property": prop, "variant": name, "breaks": prop, "needs_to_manifest": " ".join(notes.split())[:900],
         "confirmed": res.get("confirmed"), "ran": res.get("ran"),
         "checks": res.get("checks"), "caught_by": [c for c, r in res.get("checks", {}).items() if r["exit"] == 1],
         "missed_by": [c for c, r in res.get("checks", {}).items() if r["exit"] == 0]}
